@@ -236,7 +236,7 @@ def run(rep):
     if thorough:
         rep.coverage['thorough'] = dict(thorough, what='%d scenarios per kind (the corpus scenario and variants: other populations in new and cur, X-Label / folded '
                                         'headers / flags in names, a message of several stdio buffers, the first generated name already taken in every '
-                                        'directory, the clutter of a maildir in use; stdin: sizes around the read buffer and several buffers); for every '
+                                        'directory, messages of one stdio buffer +-1; stdin: sizes around the read buffer and several buffers); for every '
                                         'scenario EVERY call index x EVERY failure of its row of the fault table (exhaustive), and %d sampled pairs of '
                                         'faults judged for loss-freedom; every run followed call by call by Model.mainP' % (thorough['variants_per_kind'], PAIRS))
     rep.assumptions += ['single faults (pairs: loss-freedom only); identity sources pinned by the shim; command/isdirectory conditions are not part of the scenarios']
